@@ -21,13 +21,15 @@ fn corrupt(rng: &mut Rng, line: &str) -> (String, &'static str) {
         8 => (format!("0  100 {}", line), "double-space"),
         9 => {
             let mut s = line.to_string();
-            let cut = rng.below(s.len().max(1));
+            let mut cut = rng.below(s.len().max(1));
+            while !s.is_char_boundary(cut) { cut -= 1; }
             s.truncate(cut);
             (s, "truncated-label")
         }
         10 => {
             let mut b = line.as_bytes().to_vec();
             for _ in 0..rng.range(1, 4) {
+                if b.is_empty() { break; }
                 let i = rng.below(b.len());
                 b[i] = rng.range(33, 126) as u8;
             }
